@@ -14,7 +14,7 @@ func init() {
 	register(&propertyDef{
 		id:    "C11",
 		title: "parsing any files yields a workflow or an error, never a crash or endless loop",
-		rules: []ruleFunc{c11R1, c11R1b, c11R2, c11R2c, c11R3, c11R4},
+		rules: []ruleFunc{c11R1, c11R1b, c11R2, c11R2c, c11R3, c11R4, c11R5, c11R6, c11R7},
 		decided: "every explicit panic and unchecked type assertion in the parse and prepare paths is justified by a dominating validation (tabled, several recomputed); map-key lookups whose `found` result is ignored use keys listed by the same node, and the YAML transform admits only scalar keys (R1); " +
 			"every call-graph cycle through parse/prepare functions has, on each of its cycles, a call whose argument is a strict projection of the caller's parameter (structural decrease) or is guarded by a visited-set membership test (R2); " +
 			"the errors of file reads and context lookups are propagated to the caller (R3).",
@@ -89,6 +89,20 @@ func c11R1(c *Ctx) {
 		}
 		reason, ok := c.tabledS(c11PanicTable, s.fn, "|"+s.msg)
 		if !ok {
+			// a shared guard helper (`requireMap(caller)`): every caller has a tabled panic with one and the same CHECK whose
+			// message starts with this panic's literal prefix — the check is then made for every caller
+			if r, callers := c.sharedPanicHelper(s.fn, s.msg); r == "CHECK:map-type-guard" {
+				okAll, ds := true, []string{}
+				for _, g := range callers {
+					okc, d := c.checkMapTypeGuard(g)
+					okAll = okAll && okc
+					ds = append(ds, d)
+				}
+				c.verdict(okAll, rule, key, c.instrPos(s.in), strings.Join(ds, "; "), strings.Join(ds, "; "))
+				continue
+			}
+		}
+		if !ok {
 			c.bad(rule, key, c.instrPos(s.in), fmt.Sprintf("panic(%q) is reachable while parsing/preparing a workflow and is not a tabled invariant: malformed files must yield an error", s.msg))
 			continue
 		}
@@ -156,6 +170,45 @@ func c11R1(c *Ctx) {
 	}
 	c.minCount(rule, "explicit panics in parse/prepare", nP, 4)
 	c.minCount(rule, "unchecked assertions in parse/prepare", nA, 15)
+}
+
+// sharedPanicHelper: fn is called (statically, 2-4 sites, never as a value) only by functions that each have exactly one
+// tabled panic, all with the same reason, whose message starts with the literal prefix (up to the first %) of msg.
+func (c *Ctx) sharedPanicHelper(fn *ssa.Function, msg string) (string, []*ssa.Function) {
+	sites := c.CG().callers[fn]
+	if len(sites) < 2 || len(sites) > 4 || c.usedAsValue(fn) {
+		return "", nil
+	}
+	prefix := msg
+	if i := strings.Index(prefix, "%"); i >= 0 {
+		prefix = prefix[:i]
+	}
+	if len(prefix) < 8 {
+		return "", nil
+	}
+	reason := ""
+	var callers []*ssa.Function
+	for _, st := range sites {
+		cc := callCommon(st.Instr)
+		g := st.Instr.Parent()
+		if cc == nil || cc.StaticCallee() != fn || g == nil {
+			return "", nil
+		}
+		found := ""
+		for k, r := range c11PanicTable {
+			i := strings.Index(k, "|")
+			if i < 0 || k[:i] != c.fnName(g) || !strings.HasPrefix(k[i+1:], prefix) {
+				continue
+			}
+			found = r
+		}
+		if found == "" || (reason != "" && found != reason) {
+			return "", nil
+		}
+		reason = found
+		callers = append(callers, g)
+	}
+	return reason, callers
 }
 
 // checkConstructorPanic: panic(err) where err is the error of a schema.New*CallableFunction call in the same function.
@@ -249,6 +302,19 @@ func (c *Ctx) checkNodeTypeIDs() (bool, string) {
 			vals := []ssa.Value{st.Val}
 			if phi, ok := st.Val.(*ssa.Phi); ok {
 				vals = phi.Edges
+			}
+			// a constructor helper: the type id is its parameter — every call site passes one of the constants
+			for k := 0; k < len(vals); k++ {
+				p, ok := vals[k].(*ssa.Parameter)
+				if !ok {
+					continue
+				}
+				if arg, ok := paramBinding[p]; ok {
+					vals[k] = arg
+				} else if args := paramSites[p]; len(args) > 0 {
+					vals[k] = args[0]
+					vals = append(vals, args[1:]...)
+				}
 			}
 			for _, v := range vals {
 				s, isC := constString(v)
@@ -1262,6 +1328,328 @@ func (c *Ctx) scalarCheckCoversAllKeys(fn *ssa.Function, blk *ssa.BasicBlock, ki
 // C11.R4 constant positions in file-derived slices are guarded by a length test.
 var c11IndexTable = map[string]string{
 	"(yaml.parser).transform|index 0 of field Content": "a yaml.v3 DocumentNode always has exactly one content node (the decoder creates the document node only around a parsed root; an empty stream yields Kind 0, which the case above rejects) — confirmed with empty, comment-only and `---`/`...` inputs",
+}
+
+// C11.R5 map elements of pointer type that are dereferenced unconditionally.
+func c11R5(c *Ctx) {
+	const rule = "C11.R5"
+	c.explain("C11.R5 on the parse/prepare paths, a map element of pointer type that is read with a constant key and dereferenced without a nil or comma-ok test (workflowOutput[\"success\"].SchemaValue) is justified by a presence test of the same key, on a map obtained from the same method, that returns an error when the key is missing, elsewhere on the preparation path (the reader's and the validator's key agree): otherwise a file without that entry makes preparation panic with a nil dereference")
+	scope := map[*ssa.Function][]string{}
+	for f, ch := range c.Scopes().parse {
+		scope[f] = ch
+	}
+	for f, ch := range c.Scopes().prepare {
+		scope[f] = ch
+	}
+	fns := c.sortedFns(scope)
+	// the map's producer: the method (or function) whose result the map is
+	producer := func(m ssa.Value) string {
+		name := ""
+		derivesFrom(m, func(v ssa.Value) bool {
+			if call, ok := v.(*ssa.Call); ok && name == "" {
+				if call.Common().IsInvoke() {
+					name = call.Common().Method.Name()
+				} else if f := call.Common().StaticCallee(); f != nil {
+					name = f.Name()
+				}
+				return true
+			}
+			return false
+		})
+		return name
+	}
+	// validators: comma-ok lookups with a constant key whose !ok edge returns an error
+	type vkey struct{ prod, key string }
+	validated := map[vkey]string{}
+	for _, fn := range fns {
+		eachInstr(fn, func(r instrRef) {
+			lk, ok := r.I.(*ssa.Lookup)
+			if !ok {
+				return
+			}
+			k, isC := constString(lk.Index)
+			if !isC || lk.Referrers() == nil {
+				return
+			}
+			if !lk.CommaOk {
+				// `if m[k] == nil { return err }`
+				for _, ref := range *lk.Referrers() {
+					b, ok := ref.(*ssa.BinOp)
+					if !ok || !isNilConst(b.Y) || b.Referrers() == nil {
+						continue
+					}
+					for _, r2 := range *b.Referrers() {
+						ifi, ok := r2.(*ssa.If)
+						if !ok {
+							continue
+						}
+						nilEdge := 0
+						if b.Op == token.NEQ {
+							nilEdge = 1
+						}
+						if (b.Op == token.EQL || b.Op == token.NEQ) && blockReturnsError(ifi.Block().Succs[nilEdge]) {
+							validated[vkey{producer(lk.X), k}] = c.fnName(fn)
+						}
+					}
+				}
+				return
+			}
+			// an If on the ok result whose false edge returns a non-nil error
+			for _, ref := range *lk.Referrers() {
+				ex, ok := ref.(*ssa.Extract)
+				if !ok || ex.Index != 1 || ex.Referrers() == nil {
+					continue
+				}
+				for _, r2 := range *ex.Referrers() {
+					ifi, ok := r2.(*ssa.If)
+					if !ok {
+						continue
+					}
+					if blockReturnsError(ifi.Block().Succs[1]) {
+						validated[vkey{producer(lk.X), k}] = c.fnName(fn)
+					}
+				}
+			}
+		})
+	}
+	n := 0
+	cnt := map[string]int{}
+	for _, fn := range fns {
+		eachInstr(fn, func(r instrRef) {
+			lk, ok := r.I.(*ssa.Lookup)
+			if !ok || lk.CommaOk {
+				return
+			}
+			if _, isPtr := lk.Type().Underlying().(*types.Pointer); !isPtr {
+				return
+			}
+			k, isC := constString(lk.Index)
+			if !isC || lk.Referrers() == nil {
+				return
+			}
+			// dereferenced: base of a FieldAddr, or receiver of a (pointer-receiver static) method call
+			var deref ssa.Instruction
+			for _, ref := range *lk.Referrers() {
+				switch y := ref.(type) {
+				case *ssa.FieldAddr:
+					if y.X == ssa.Value(lk) {
+						deref = y
+					}
+				case *ssa.UnOp:
+					if y.Op == token.MUL && y.X == ssa.Value(lk) {
+						deref = y
+					}
+				}
+			}
+			if deref == nil {
+				return
+			}
+			isNilTest := func(cond ssa.Value) bool {
+				b, ok := cond.(*ssa.BinOp)
+				return ok && (b.Op == token.NEQ || b.Op == token.EQL) && sameVal(b.X, lk) && isNilConst(b.Y)
+			}
+			if guardedBy(deref, true, isNilTest) != nil || guardedBy(deref, false, isNilTest) != nil {
+				return
+			}
+			n++
+			prod := producer(lk.X)
+			cnt[c.fnName(fn)+k]++
+			key := fmt.Sprintf("map-elem-deref@%s#%s", c.fnName(fn), sanitize(prod+" "+k))
+			if cnt[c.fnName(fn)+k] > 1 {
+				key += fmt.Sprintf("#%d", cnt[c.fnName(fn)+k])
+			}
+			by, okc := validated[vkey{prod, k}]
+			c.verdict(okc, rule, key, c.instrPos(deref), fmt.Sprintf("%s rejects a %s() without the key %q with an error", by, prod, k),
+				fmt.Sprintf("the element %q of the map returned by %s() is dereferenced without a nil test, and no function of the preparation path returns an error when that key is missing: a sub-workflow (or file) without it makes preparation panic with a nil pointer dereference instead of reporting an error", k, prod))
+		})
+	}
+	c.minCount(rule, "unconditional dereferences of constant-key map elements on the parse/prepare paths", n, 2)
+}
+
+// blockReturnsError: the block (or the straight-line chain it starts) ends in a return whose last result is not the nil constant.
+func blockReturnsError(b *ssa.BasicBlock) bool {
+	for i := 0; i < 4 && b != nil; i++ {
+		if len(b.Instrs) == 0 {
+			return false
+		}
+		switch x := b.Instrs[len(b.Instrs)-1].(type) {
+		case *ssa.Return:
+			rs := retResults(x)
+			return len(rs) > 0 && !isNilConst(rs[len(rs)-1])
+		case *ssa.Jump:
+			b = b.Succs[0]
+		default:
+			return false
+		}
+	}
+	return false
+}
+
+// C11.R6 no shrinking re-slice that shares its backing array with a slice still in use.
+func c11R6(c *Ctx) {
+	const rule = "C11.R6"
+	c.explain("C11.R6 on the parse/prepare paths no slice is re-sliced to a shorter constant length (s[:0], s[:k]) and then handed to a call or to append while s itself is used afterwards: the two share one backing array, so what the callee appends overwrites elements of s (a sibling's file cache is lost and a file that exists is reported as not found in the workflow context)")
+	scope := map[*ssa.Function][]string{}
+	for f, ch := range c.Scopes().parse {
+		scope[f] = ch
+	}
+	for f, ch := range c.Scopes().prepare {
+		scope[f] = ch
+	}
+	n, slices := 0, 0
+	cnt := map[string]int{}
+	for _, fn := range c.sortedFns(scope) {
+		eachInstr(fn, func(r instrRef) {
+			sl, ok := r.I.(*ssa.Slice)
+			if !ok {
+				return
+			}
+			if _, isSlice := sl.X.Type().Underlying().(*types.Slice); !isSlice {
+				return
+			}
+			slices++
+			if sl.High == nil || sl.Max != nil {
+				return // s[a:] keeps the tail; a full slice expression s[:k:k] caps the capacity, appends reallocate
+			}
+			if _, isC := constInt(sl.High); !isC {
+				return
+			}
+			if _, fresh := sl.X.(*ssa.MakeSlice); fresh || sl.Referrers() == nil || sl.X.Referrers() == nil {
+				return
+			}
+			// the short slice escapes to a call / append ...
+			escapes := false
+			for _, ref := range *sl.Referrers() {
+				cc := callCommon(ref)
+				if cc == nil {
+					continue
+				}
+				for i, a := range cc.Args {
+					if a != ssa.Value(sl) {
+						continue
+					}
+					if b, ok := cc.Value.(*ssa.Builtin); ok {
+						if b.Name() == "append" && i == 0 {
+							escapes = true
+						}
+						continue
+					}
+					// a repo function that appends to that parameter (functions outside the repo are trusted not to)
+					callee := cc.StaticCallee()
+					if callee == nil || !isRepoFn(callee) || i >= len(callee.Params) {
+						continue
+					}
+					p := callee.Params[i]
+					eachInstr(callee, func(r2 instrRef) {
+						if call, ok := r2.I.(*ssa.Call); ok && isBuiltinCall(call, "append") && len(call.Call.Args) > 0 && derivesFrom(call.Call.Args[0], isValue(p)) {
+							escapes = true
+						}
+					})
+				}
+			}
+			// ... and the long one is still used afterwards
+			usedAfter := false
+			for _, ref := range *sl.X.Referrers() {
+				if ref != ssa.Instruction(sl) && (dominatesLocal(sl, ref) || c.reachableFrom(sl, ref)) {
+					if _, isDbg := ref.(*ssa.DebugRef); !isDbg {
+						usedAfter = true
+					}
+				}
+			}
+			if !escapes {
+				return
+			}
+			n++
+			cnt[c.fnName(fn)]++
+			key := fmt.Sprintf("shrinking-reslice@%s#%d", c.fnName(fn), cnt[c.fnName(fn)])
+			c.verdict(!usedAfter, rule, key, c.instrPos(sl), "the original slice is not used after the re-slice", fmt.Sprintf("%s is re-sliced to a shorter length and passed on while it stays in use: both share one backing array, so appends through the short slice overwrite its elements", valueOrigin(sl.X)))
+		})
+	}
+	c.ok(rule, "scanned", "-", fmt.Sprintf("%d slice expressions on the parse/prepare paths, %d shrink a slice and hand it to an append", slices, n), false)
+}
+
+// C11.R7 SDK operations that panic on a malformed schema are recovered where the schema comes from the file.
+func c11R7(c *Ctx) {
+	const rule = "C11.R7"
+	c.explain("C11.R7 pluginsdk links the references of a scope with ApplySelf/ApplyNamespace and looks its root up with RootObject; all three PANIC (BadArgumentError / plain string) when a reference names an object that does not exist or the root is missing or mislabelled — programming errors for schemas written in Go, but plain input errors for the workflow's `input` scope, which is read from the file. Every such call whose receiver derives from DescribeScope().Unserialize(<file content>) is made under a function that defers a recover() turning the panic into its error result (the function itself, or a function that owns it / calls it on the preparation path)")
+	scope := map[*ssa.Function][]string{}
+	for f, ch := range c.Scopes().parse {
+		scope[f] = ch
+	}
+	for f, ch := range c.Scopes().prepare {
+		scope[f] = ch
+	}
+	panicky := map[string]bool{"ApplySelf": true, "ApplyNamespace": true, "RootObject": true}
+	fromFile := func(v ssa.Value) bool {
+		return derivesFromAnySite(v, func(x ssa.Value) bool {
+			call, ok := x.(*ssa.Call)
+			if !ok {
+				return false
+			}
+			recv := callRecv(call.Common())
+			name := ""
+			if call.Common().IsInvoke() {
+				name = call.Common().Method.Name()
+			} else if f := call.Common().StaticCallee(); f != nil {
+				name = f.Name()
+			}
+			if name != "Unserialize" || recv == nil {
+				return false
+			}
+			return derivesFrom(recv, func(y ssa.Value) bool {
+				c2, ok := y.(*ssa.Call)
+				return ok && strings.HasSuffix(calleeName(c2.Common()), "schema.DescribeScope")
+			})
+		})
+	}
+	// protected: fn recovers itself, or every path of callers (within the repo, up to 4 levels) passes a recovering function
+	var protected func(fn *ssa.Function, d int, seen map[*ssa.Function]bool) bool
+	protected = func(fn *ssa.Function, d int, seen map[*ssa.Function]bool) bool {
+		for f := fn; f != nil; f = f.Parent() {
+			if recoverGuarded(f) {
+				return true
+			}
+		}
+		if d > 4 || seen[fn] {
+			return false
+		}
+		seen[fn] = true
+		sites := c.CG().callers[fn]
+		n := 0
+		for _, st := range sites {
+			caller := st.Instr.Parent()
+			if caller == nil || c.excluded(caller) {
+				continue
+			}
+			n++
+			if !protected(caller, d+1, seen) {
+				return false
+			}
+		}
+		return n > 0
+	}
+	n := 0
+	cnt := map[string]int{}
+	for _, fn := range c.sortedFns(scope) {
+		if pkgPathOf(fn) == pkgCmd {
+			continue
+		}
+		eachInstr(fn, func(r instrRef) {
+			cc := callCommon(r.I)
+			if cc == nil || !cc.IsInvoke() || !panicky[cc.Method.Name()] || !strings.Contains(cc.Value.Type().String(), "pluginsdk/schema.") {
+				return
+			}
+			if !fromFile(cc.Value) {
+				return
+			}
+			n++
+			cnt[c.fnName(fn)+cc.Method.Name()]++
+			key := fmt.Sprintf("sdk-panic@%s#%s#%d", c.fnName(fn), cc.Method.Name(), cnt[c.fnName(fn)+cc.Method.Name()])
+			c.verdict(protected(fn, 0, map[*ssa.Function]bool{}), rule, key, c.instrPos(r.I), cc.Method.Name()+" on the file's input scope runs under a deferred recover that returns the panic as an error",
+				fmt.Sprintf("%s is called on the scope read from the workflow file without a recover: an `input` section whose reference names a missing object, or whose root is missing or mislabelled, makes preparation panic (pluginsdk reports these by panicking) instead of returning an error", cc.Method.Name()))
+		})
+	}
+	c.minCount(rule, "panicking SDK scope operations on the file's input scope", n, 3)
 }
 
 func c11R4(c *Ctx) {
